@@ -36,7 +36,7 @@ func genC01(t *rapid.T) C01Case {
 	c.Maps[1].Full = false
 	c.Alt, c.AltM = genRebatch(t, c.Blocks)
 	if len(c.Blocks) >= 2 && rapid.IntRange(0, 2).Draw(t, "late") == 0 {
-		c.Late = &Cfg{Kind: "map", Full: rapid.Bool().Draw(t, "late-full"), Rows: 63}
+		c.Late = &Cfg{Kind: "map", Full: rapid.Bool().Draw(t, "late-full"), Rows: 63, Ext: rapid.IntRange(0, 3).Draw(t, "late-ext") == 0}
 		c.LateAt = rapid.IntRange(1, len(c.Blocks)-1).Draw(t, "late-at")
 	}
 	return c
@@ -221,6 +221,9 @@ func runC01(c C01Case) *Result {
 			v := ls.f.View()
 			if i == c.LateAt {
 				m := u.NewMapPollardFromRoots(cloneHashes(v.Roots), v.N, c.Late.Full)
+				if c.Late.Ext {
+					extStores(&m)
+				}
 				late = &Inst{Cfg: *c.Late, M: &m}
 				res.class(fmt.Sprintf("late-joiner:full=%v", c.Late.Full))
 			}
